@@ -238,6 +238,9 @@ func (g *grpcClient) WriteRequestHeader(_ StreamType, header http.Header) {
 	// client before: what it says about compression must be this client's.
 	delete(header, grpcHeaderCompression)
 	delete(header, grpcHeaderAcceptCompression)
+	// (A Content-Encoding left by a compressing Connect client would announce a
+	// body that is coded as a whole, which an enveloped body never is.)
+	delete(header, connectUnaryHeaderCompression)
 	if g.CompressionName != "" && g.CompressionName != compressionIdentity {
 		header[grpcHeaderCompression] = []string{g.CompressionName}
 	}
